@@ -258,6 +258,20 @@ def check_frame(c):
     if over:
         u = F.TransferFrame.unpack(bytes(want), ft, properties_for(F, c, len(want), **over))
         eq(devs, "frame.dec.obs.size_configured_for_absent_field", obs_frame(u), want_obs)
+    # the composition side of the mismatch clause: a frame whose header flag and operational control field disagree, an OCF that is
+    # not 4 octets, a data field that needs its pointer and has none - refused with the USLP errors, and the frame packs as before afterwards
+    if not trunc:
+        bad_frames = []
+        hflip = build_header({**hc, "ocf_flag": 1 - hc["ocf_flag"]})
+        mk_tfdf = lambda ptr=c["pointer"]: F.TransferFrameDataField(F.TfdzConstructionRules(c["rule"]), F.UslpProtocolIdentifier(c["upid"]), bytes.fromhex(c["tfdz"]), ptr)  # noqa: E731
+        b_ = lambda x: None if x is None else bytes.fromhex(x)  # noqa: E731
+        bad_frames.append(("ocf_flag_and_field_disagree", F.TransferFrame(hflip, mk_tfdf(), insert_zone=b_(c["insert_zone"]), op_ctrl_field=b_(c["ocf"]), fecf=b_(c["fecf"])), (D.UslpInvalidFrameHeader,)))
+        bad_frames.append(("ocf_not_four_octets", F.TransferFrame(build_header({**hc, "ocf_flag": 1}), mk_tfdf(), insert_zone=b_(c["insert_zone"]), op_ctrl_field=b"\x01\x02\x03", fecf=b_(c["fecf"])), (ValueError,)))
+        if c["pointer"] is not None:
+            bad_frames.append(("pointer_missing", F.TransferFrame(build_header(hc), mk_tfdf(None), insert_zone=b_(c["insert_zone"]), op_ctrl_field=b_(c["ocf"]), fecf=b_(c["fecf"])), (D.UslpFhpVhopFieldMissing,)))
+        for tag, bf, exc in bad_frames:
+            expect_raise(devs, f"frame.compose_refused.{tag}", lambda bf=bf: bf.pack(truncated=False, frame_type=ft), accept=exc)
+        eq(devs, "frame.pack_after_refused_compositions", bytes(fr.pack(truncated=trunc, frame_type=ft)), want)
     # histories: pack hands out a fresh buffer; caller-owned mutable zone / trailer buffers are not modified and packing is repeatable
     from ..core import pack_fresh, scribble
 
